@@ -28,6 +28,7 @@ import (
 	"github.com/fabiolb/fabio/proxy"
 	"github.com/fabiolb/fabio/registry/consul"
 	"github.com/fabiolb/fabio/route"
+	"github.com/fabiolb/fabio/transport"
 	"github.com/hashicorp/consul/api"
 	"pgregory.net/rapid"
 
@@ -135,10 +136,15 @@ func newChain() *chain {
 		}
 		return c.table.Load().(route.Table).Lookup(r, "", route.Picker["rr"], route.Matcher[m], cache, false)
 	}
+	// the transport is the one fabio builds for itself (transport.NewTransport), with Go's
+	// transparent decompression switched off so that bodies can be compared byte for byte
+	transport.SetConfig(&config.Config{})
+	ownTransport := transport.NewTransport(nil)
+	ownTransport.DisableCompression, ownTransport.MaxIdleConnsPerHost = true, 4
 	c.px = viaListener(&proxy.HTTPProxy{
 		Stats:     wire.Stats(),
 		Config:    config.Proxy{NoRouteStatus: 0},
-		Transport: &http.Transport{DisableCompression: true, MaxIdleConnsPerHost: 4},
+		Transport: ownTransport,
 		Lookup:    lookup,
 	})
 	// the same proxy with proxy.gzip.contenttype configured
